@@ -69,7 +69,7 @@ def gen_plan(rng, tier, i):
         "given_order": rng.choice(["sorted", "sorted", "reversed", "shuffled", "arcs_swapped"]),
     }
     ops = []
-    for _ in range(rng.randint(4, 12)):
+    for _ in range(rng.randint(4, 12) if tier != "thorough" else rng.randint(8, 24)):
         k = rng.choice(["interp"] * 7 + ["set_frame", "set_frame", "set_form", "set_order", "set_method", "iter_start", "iter_next", "copy", "pickle", "drop_cache"])
         op = {"op": k}
         if k == "interp":
